@@ -271,7 +271,11 @@ def clause2b_casefold(ctx, P):
                     else:
                         st.append(h)
         if not helpers:
-            raise AnalysisBroken("%s is neither the libc wrapper nor a loop over a recognisable folding helper" % name)
+            ctx.ob("C16.2 R-SIB", f, "is-libc-" + want, False,
+                   "%s is neither a plain wrapper of %s() (what it is on the reference tree) nor a loop over a folding helper that can "
+                   "be evaluated on all 256 bytes: the case-insensitive matchers are then not the byte-wise ones modulo ASCII case by "
+                   "construction" % (name, want))
+            continue
         for h in helpers:
             ev = FEval(P, h, None, ptr_param=None)
             bad = []
